@@ -419,6 +419,7 @@ def run(ctx):
     import genwrap, genglue2
     genwrap.run_stream(ctx)           # the *_from_graph wrappers regenerated from the source (Gen/WrapGen.lean)
     genglue2.run_stream(ctx)          # sixteen further ODE entry points regenerated whole (Gen/OdeGlue2.lean)
+    discrete_theta_zero(ctx)
     layouts(ctx)
     probe_known(ctx)
     probe_known3(ctx)
@@ -561,3 +562,37 @@ def run(ctx):
                         bad.append("full-data series %s starts at %s, expected %s" % (nm, [round(float(a), 6) for a in arr0], [float(b) for b in exp[nm]]))
         if bad:
             ctx.violation("%s: %s" % (name, "; ".join(bad)[:400]), dict(rep, problems=bad))
+
+
+def discrete_theta_zero(ctx):
+    """`EBCM_discrete_from_graph` / `EBCM_discrete` driven to theta = 0 EXACTLY: transmission probability 1 and a request in which
+    no susceptible node has a susceptible or recovered neighbour (phiS0 = phiR0 = 0), on graphs WITH ISOLATED NODES (a degree-0
+    class: the k = 0 term of psihat' is 0 * x**(-1)).  S+I+R = N at every index and nothing is nan (defect fixed in /repo; the
+    first case is the input the thorough tier found it on)."""
+    import EoN
+    cases = [(7, [[0, 3], [0, 1], [1, 6], [2, 5], [3, 6], [5, 6]], [6, 2, 0], [1, 5], 1, 7)]
+    r = ctx.rng
+    for _ in range(ctx.scale(12, 60)):
+        m = r.randint(2, 6)
+        G = nx.star_graph(m) if r.random() < 0.5 else nx.complete_bipartite_graph(2, m)
+        centre = [0] if G.number_of_nodes() == m + 1 else [0, 1]
+        n = G.number_of_nodes()
+        iso = r.randint(1, 3)
+        cases.append((n + iso, [list(e) for e in G.edges()], centre, [], r.choice([0, 1, -2]), None))
+    for n, edges, infs, recs, tmin, tmax in cases:
+        G = nx.Graph(); G.add_nodes_from(range(n)); G.add_edges_from(edges)
+        tmax = tmin + 5 if tmax is None else tmax
+        rep = dict(entry="EBCM_discrete_from_graph", stream="theta-zero", n=n, edges=edges, infs=infs, recs=recs, p=1.0, tmin=tmin, tmax=tmax)
+        ctx.case(rep, nontrivial=True)
+        ctx.count("theta-zero")
+        try:
+            with np.errstate(all="ignore"):
+                t, S, I, R = EoN.EBCM_discrete_from_graph(G, 1.0, initial_infecteds=infs, initial_recovereds=recs or None, tmin=tmin, tmax=tmax)
+        except Exception as e:
+            ctx.violation("EBCM_discrete_from_graph raised %s with p = 1 on a graph with isolated nodes (a consistent initial condition)"
+                          % type(e).__name__, dict(rep, error=repr(e)[:200]))
+            continue
+        tot = np.asarray(S, dtype=float) + np.asarray(I, dtype=float) + np.asarray(R, dtype=float)
+        if not np.all(np.isfinite(tot)) or np.max(np.abs(tot - n)) > 1e-9 * n:
+            ctx.violation("EBCM_discrete_from_graph with p = 1 on a graph with isolated nodes: S+I+R != N (%s)" % [float(x) for x in tot[:6]],
+                          dict(rep, S=[float(x) for x in S], I=[float(x) for x in I], R=[float(x) for x in R]))
